@@ -716,7 +716,7 @@ def check_guard_table(ctx, table):
         fn = ctx.fn(qname)
         ex = ctx.ex(fn)
         sites = []
-        if not what.startswith(('store:', 'raise:', 'assign:')):
+        if not what.startswith(('store:', 'raise:', 'assign:', 'substore:', 'subtarget:')):
             for n in own_nodes(fn.node):
                 if isinstance(n, ast.Call) and match(ex.term(n), pattern(what)) is not None:
                     sites.append(n)
@@ -728,6 +728,16 @@ def check_guard_table(ctx, table):
             sites = [n for n in own_nodes(fn.node) if isinstance(n, ast.Assign) and
                      isinstance(n.targets[0], ast.Name) and
                      match(ex.term(n.value), pattern(vpat)) is not None]
+        if not sites and what.startswith('substore:'):
+            vpat = what[len('substore:'):]
+            sites = [n for n in own_nodes(fn.node) if isinstance(n, ast.Assign) and
+                     isinstance(n.targets[0], ast.Subscript) and
+                     match(ex.term(n.value), pattern(vpat)) is not None]
+        if not sites and what.startswith('subtarget:'):
+            spat = what[len('subtarget:'):]
+            sites = [n for n in own_nodes(fn.node) if isinstance(n, ast.Assign) and
+                     isinstance(n.targets[0], ast.Subscript) and
+                     match(ex.term(n.targets[0].slice), pattern(spat)) is not None]
         if not sites and what.startswith('raise:'):
             idx = int(what[len('raise:'):])
             rs = sorted((s for s in own_nodes(fn.node) if isinstance(s, ast.Raise)),
